@@ -380,16 +380,24 @@ class RF24Mesh(RF24MeshNoMaster):
                     found_addr = True
                     break
             if not found_addr:
-                self.set_address(self.frame_buf.header.reserved, new_addr)
+                node_id = self.frame_buf.header.reserved
+                to_node = self.frame_buf.header.from_node
+                self.set_address(node_id, new_addr)
 
-                self.frame_buf.header.message_type = MESH_ADDR_RESPONSE
-                self.frame_buf.header.to_node = self.frame_buf.header.from_node
-                self.frame_buf.message = struct.pack("<H", new_addr)
-                if self.frame_buf.header.from_node != NETWORK_DEFAULT_ADDR:
-                    if not self._write(self.frame_buf.header.to_node, TX_NORMAL):
-                        self._write(self.frame_buf.header.to_node, TX_NORMAL)
-                else:
-                    self._write(self.frame_buf.header.to_node, TX_PHYSICAL)
+                # a relayed response gets a second try
+                attempts = 2 if to_node != NETWORK_DEFAULT_ADDR else 1
+                send_type = TX_NORMAL if to_node != NETWORK_DEFAULT_ADDR else TX_PHYSICAL
+                while attempts:
+                    attempts -= 1
+                    # build the response for every try: frames received during a failed
+                    # try (while waiting for a NETWORK_ACK) overwrite the frame_buf
+                    self.frame_buf.header.message_type = MESH_ADDR_RESPONSE
+                    self.frame_buf.header.from_node = to_node
+                    self.frame_buf.header.to_node = to_node
+                    self.frame_buf.header.reserved = node_id
+                    self.frame_buf.message = struct.pack("<H", new_addr)
+                    if self._write(to_node, send_type):
+                        break
                 break
             # print("address", new_addr, "not allocated.")
 
